@@ -17,6 +17,7 @@ Sim::Sim(const Plan& p, bool keep_trace)
     : plan(p), w(p.seed), net(w), broker(w, net)
 {
     w.keep_trace = keep_trace;
+    w.live_trace = keep_trace && getenv("SIM_LIVE") != nullptr;
     w.event_first_p = p.knobs.event_first_p;
     net.knobs = p.knobs.net;
     broker.knobs = p.knobs.broker;
@@ -100,14 +101,14 @@ sim::Conn* Sim::current_conn() {
 }
 
 void Sim::make_client() {
-    client = plan.knobs.variant == 0 ? make_client_A(w.ioc, this) : make_client_B(w.ioc, this);
+    client = plan.knobs.variant == 0 ? make_client_A(w.ioc, this, &signals) : make_client_B(w.ioc, this, &signals);
     client->configure(plan.knobs.client);
     ++client_gen; ++svc_gen;
     running = false;
 }
 
 void Sim::mark(MarkKind k, int op, int64_t arg) {
-    marks.push_back(Mark{k, w.next_seq(), w.now, op, arg});
+    marks.push_back(Mark{k, w.next_seq(), w.now, op, arg, svc_gen, client_gen});
 }
 
 // ---------------------------------------------------------------- observer
@@ -193,7 +194,11 @@ void Sim::exec_step(const Step& s, ns_t* next_override) {
     switch (s.kind) {
     case SK::Run: {
         if (!client) break;
+        // async_run while a previous async_run of the same service is still outstanding is API misuse
+        if (running) break;
+        if (last_run_op >= 0 && ops[last_run_op].svc_gen == svc_gen && ops[last_run_op].dones.empty()) break;
         int op = new_op(OpKind::run, s);
+        last_run_op = op;
         if (s.c) ops[op].slot = client->new_slot();
         cur_init_op = op;
         running = true; ever_run = true;
@@ -205,6 +210,7 @@ void Sim::exec_step(const Step& s, ns_t* next_override) {
     }
     case SK::Publish: {
         if (!client) break;
+        if (!running) { w.count("skipped.not_running"); break; }   // using a client that is not running is API misuse
         int op = new_op(OpKind::publish, s);
         auto& o = ops[op];
         o.qos = s.a; o.retain = s.b; o.topic = s.s1; o.payload = s.s2; o.props = s.props;
@@ -217,6 +223,7 @@ void Sim::exec_step(const Step& s, ns_t* next_override) {
     }
     case SK::Subscribe: {
         if (!client) break;
+        if (!running) { w.count("skipped.not_running"); break; }   // using a client that is not running is API misuse
         int op = new_op(OpKind::subscribe, s);
         ops[op].subs = s.subs; ops[op].props = s.props;
         if (s.c) ops[op].slot = client->new_slot();
@@ -228,6 +235,7 @@ void Sim::exec_step(const Step& s, ns_t* next_override) {
     }
     case SK::Unsubscribe: {
         if (!client) break;
+        if (!running) { w.count("skipped.not_running"); break; }   // using a client that is not running is API misuse
         int op = new_op(OpKind::unsubscribe, s);
         ops[op].topics = s.topics; ops[op].props = s.props;
         if (s.c) ops[op].slot = client->new_slot();
@@ -239,6 +247,7 @@ void Sim::exec_step(const Step& s, ns_t* next_override) {
     }
     case SK::Receive: {
         if (!client) break;
+        if (!running) { w.count("skipped.not_running"); break; }   // using a client that is not running is API misuse
         for (int i = 0; i < std::max(1, s.a); ++i) {
             int op = new_op(OpKind::receive, s);
             if (s.c) ops[op].slot = client->new_slot();
@@ -260,6 +269,7 @@ void Sim::exec_step(const Step& s, ns_t* next_override) {
         ops[op].caller_cancelled = true; ops[op].cancel_seq = w.next_seq(); ops[op].cancel_type |= type;
         mark(MarkKind::op_cancel, op, type);
         w.count(type == 1 ? "fault.op_cancel_terminal" : type == 2 ? "fault.op_cancel_partial" : "fault.op_cancel_total");
+        if (type == 1 && ops[op].kind != OpKind::receive) running = false;    // terminal cancellation cancels the whole service
         client->emit_cancel(ops[op].slot, type);
         break;
     }
@@ -273,6 +283,7 @@ void Sim::exec_step(const Step& s, ns_t* next_override) {
     }
     case SK::Disconnect: {
         if (!client) break;
+        if (!running) { w.count("skipped.not_running"); break; }   // using a client that is not running is API misuse
         int op = new_op(OpKind::disconnect, s);
         ops[op].rc = (uint8_t)s.a; ops[op].props = s.props;
         if (s.c) ops[op].slot = client->new_slot();
@@ -300,7 +311,7 @@ void Sim::exec_step(const Step& s, ns_t* next_override) {
         break;
     }
     case SK::ReAuth:
-        if (client) client->re_authenticate();
+        if (client && running) client->re_authenticate();
         break;
     case SK::BrokerPublish:
         broker.publish((uint8_t)s.a, s.s1, s.s2, s.props, s.b != 0);
@@ -451,7 +462,7 @@ void Sim::execute() {
     if (used >= budget) budget_exhausted = true;
 
     // phase 3: drain the receive channel (count what reached the application)
-    if (client && !livelock && !budget_exhausted) {
+    if (client && running && !livelock && !budget_exhausted) {
         for (int i = 0; i < 100000; ++i) {
             Step s; s.kind = SK::Receive; s.id = -2; s.a = 1;
             size_t before = ops.size();
@@ -460,6 +471,7 @@ void Sim::execute() {
             uint64_t guard = 0;
             while (guard++ < 100000 && step_world(w.now)) {}
             if (ops[before].dones.empty()) break;
+            if (ops[before].dones[0].c.ec == boost::asio::error::operation_aborted) break;   // channel closed
         }
     }
 
